@@ -221,6 +221,77 @@ def worker_scratch(tag="w"):
     return _WORKER_STATE[key]
 
 
+from mc.errors import SetupFailed  # noqa: E402 (one class object whether this file runs as __main__ or is imported as mc.runner)
+
+
+def _raised_in_gwf(e):
+    frames = traceback.extract_tb(e.__traceback__)
+    return bool(frames) and os.path.realpath(frames[-1].filename).startswith(os.path.realpath(os.path.join(REPO, "src")) + os.sep)
+
+
+def crash_violation(acc, modname, funcname, item, kw, e, tb):
+    try:
+        item_j = json.loads(json.dumps(canon(item)))
+        kw_j = json.loads(json.dumps(canon(kw)))
+    except Exception:
+        item_j, kw_j = None, None
+    acc.violation(sig=dict(what="exception escaped from the code under test", exc=type(e).__name__, function=funcname),
+                  case=dict(crash=True, module=modname, function=funcname, item=item_j, kw=kw_j), observed=tb[-1500:],
+                  msg=f"{funcname}({json.dumps(item_j, default=str)[:300]}): {type(e).__name__}: {str(e)[:200]} raised inside gwf: {tb[-500:]}")
+
+
+def _tuplify(x):
+    return tuple(_tuplify(y) for y in x) if isinstance(x, list) else x
+
+
+def replay_crash(case):
+    a = Acc()
+    if case.get("item") is None:
+        return a.violations
+    mod = importlib.import_module(case["module"])
+    func = getattr(mod, case["function"])
+    try:
+        func(Acc(), [_tuplify(case["item"])], **(case.get("kw") or {}))
+    except Exception as e:
+        if _raised_in_gwf(e):
+            crash_violation(a, case["module"], case["function"], _tuplify(case["item"]), case.get("kw") or {}, e, traceback.format_exc())
+        else:
+            raise
+    return a.violations
+
+
+def setup_violation(acc, e):
+    acc.violation(sig=dict(what="a command that prepares the scenario failed", why=e.why[:60]), case=dict(kind="setup", recipe=e.recipe), observed=e.result,
+                  msg=f"scenario set-up {json.dumps(e.recipe, default=str)[:300]}: {e.why}: {json.dumps(e.result, default=str)[:400]}")
+
+
+def replay_any(mod, case):
+    if isinstance(case, dict) and case.get("crash"):
+        return replay_crash(case)
+    if isinstance(case, dict) and case.get("kind") == "setup":
+        from mc import cliworld
+
+        a = Acc()
+        try:
+            cliworld.build(**case["recipe"])
+        except SetupFailed as e:
+            setup_violation(a, e)
+        return a.violations
+    try:
+        return mod.replay(case)
+    except SetupFailed as e:
+        a = Acc()
+        setup_violation(a, e)
+        return a.violations
+    except Exception as e:
+        if not _raised_in_gwf(e):
+            raise
+        a = Acc()
+        a.violation(sig=dict(what="exception escaped from the code under test", exc=type(e).__name__, function="replay"), case=case, observed=traceback.format_exc()[-1500:],
+                    msg=f"replay: {type(e).__name__}: {str(e)[:200]} raised inside gwf")
+        return a.violations
+
+
 def _run_batch(args):
     modname, funcname, batch, kw = args
     mod = importlib.import_module(modname)
@@ -236,8 +307,23 @@ def _run_batch(args):
         tb = traceback.format_exc()
         acc.violation(sig=dict(what="hang (watchdog)"), case=dict(hang=True, function=funcname, batch_head=canon(batch[:1])), observed=tb[-1500:],
                       msg=f"{funcname}: {e}; innermost frames: {tb[-600:]}")
-    except Exception:
-        return ("error", traceback.format_exc(), None)
+    except SetupFailed as e:
+        setup_violation(acc, e)
+    except Exception as e:
+        if not _raised_in_gwf(e):
+            return ("error", traceback.format_exc(), None)
+        # an exception escaped from the code under test through a direct (function-level) call: a finding, not a harness problem.
+        # Find the item of the batch that triggers it so that the case replays alone.
+        tb = traceback.format_exc()
+        culprit = None
+        for item in batch:
+            try:
+                func(Acc(), [item], **kw)
+            except Exception as e2_:
+                if _raised_in_gwf(e2_):
+                    culprit = item
+                    break
+        crash_violation(acc, modname, funcname, culprit if culprit is not None else batch[0], kw, e, tb)
     finally:
         disarm_watchdog()
     return ("ok", None, acc)
@@ -355,12 +441,12 @@ def finish(ctx: Ctx, mod):
 
             reps = []
             for _ in range(2):
-                reps.append(_scrub(mod.replay(v["case"])))
+                reps.append(_scrub(replay_any(mod, v["case"])))
             if reps[0] != reps[1]:
                 # not bit-identical: the only source of nondeterminism the harness does not own is the iteration order of
                 # address-hashed sets of Target objects inside gwf (DESIGN §1). Accept if the violation keeps reproducing.
                 for _ in range(3):
-                    reps.append(_scrub(mod.replay(v["case"])))
+                    reps.append(_scrub(replay_any(mod, v["case"])))
             r1 = reps[0]
         except Exception:
             print("HARNESS-ERROR: replay of violating case raised:\n" + traceback.format_exc())
@@ -472,7 +558,7 @@ def main(argv=None):
         if args.as_test:
             print(as_test(args.id, rec))
             return 0
-        res = mod.replay(rec["case"])
+        res = replay_any(mod, rec["case"])
         if res:
             for r in res:
                 print("REPRODUCED:", json.dumps(canon(r), sort_keys=True)[:3000])
@@ -485,7 +571,10 @@ def main(argv=None):
     ctx = Ctx(args.id, mod.LEVEL, args.tier, seed)
     shutil.rmtree(os.path.join(VERIF, "replays", args.id), ignore_errors=True)
     try:
-        mod.run(ctx)
+        try:
+            mod.run(ctx)
+        except SetupFailed as e:
+            setup_violation(ctx.acc, e)
         rc = finish(ctx, mod)
     except Exception:
         print("HARNESS-ERROR: " + traceback.format_exc())
@@ -505,7 +594,7 @@ from mc.checks import {cid.lower()} as chk
 CASE = json.loads({json.dumps(json.dumps(rec["case"]))})
 
 def test_replay_{cid.lower()}():
-    assert chk.replay(CASE) == [], "violation reproduces"
+    assert runner.replay_any(chk, CASE) == [], "violation reproduces"
 '''
 
 
